@@ -548,6 +548,7 @@ def blob_cases(ctx):
     for x, m in zip(floats, ctx.model([(1552, float_parts(x)) for x in floats])):
         ftext[float(x).hex()] = dec(m[1][1])
     recs = []
+    composed = []
     for i, (case, res, (ck, cl)) in enumerate(zip(cases, real_vals, conf)):
         data = case['tree']
         hierarchy = data['hierarchy']
@@ -597,9 +598,37 @@ def blob_cases(ctx):
         ctx.dist('confidence dtype', str({type(c[l][ck]).__name__ for c in res for l in hierarchy}))
         ctx.count(('b', json.dumps(rows)), nontrivial=any(needs_quote(f) for row in rows for f in row))
         recs.append({'kind': 'blob_to_csv', 'bodies': bodies, 'rows': rows, 'text': text, 'user': user, 'case': case})
+        # the same file against CsvText.blob_to_csv_text (the composition of the record model with the writer)
+        c15case = {'tree': data, 'w': 0, 'single_iter': case['single_iter'], 'meta_name': case['meta_name'],
+                   'flatten_cfg': case['flatten_cfg'],
+                   'results': [{k: (v if k == 'cell_id' else
+                                    {kk: (float(vv) if kk in ('bootstrapping_probability', 'avg_correlation',
+                                                              'aggregate_probability') else vv)
+                                     for kk, vv in v.items()}) for k, v in cell.items()} for cell in res]}
+        composed.append((c15case, text, case))
         if i == 0:
             ctx.sample({'blob_to_csv text': text})
     judge_files(ctx, recs)
+    from harness.props import c15
+    model_in, kept = [], []
+    for c15case, text, case in composed:
+        names = c15.Names()
+        args = c15.csv_model_args(c15case, names)
+        call, neg_zero = c15.csv_text_input(c15case, names, args)
+        if neg_zero:
+            ctx.dist('blob_to_csv file vs blob_to_csv_text', 'skipped: a -0.0 in the blob')
+            continue
+        model_in.append(call)
+        kept.append((text, case))
+    for (text, case), m in zip(kept, ctx.model(model_in)):
+        if m[0] == 0 and dec(m[1][0]) == text:
+            ctx.dist('blob_to_csv file vs blob_to_csv_text', 'byte for byte equal'
+                     + (', well_shaped for the comment reader' if m[1][1] and m[1][2] else ''))
+        else:
+            ctx.violation(f'blob_to_csv: the file differs from CsvText.blob_to_csv_text: real {text!r} model '
+                          f'{dec(m[1][0]) if m[0] == 0 else m!r}',
+                          {'class': 'corr:CsvText.run_blob_to_csv_text', 'kind': 'blob_to_csv', 'case': case},
+                          no_input=True)
 
 
 # ------------------------------------------------------------------ (C) files larger than one tokenizer chunk
